@@ -32,11 +32,11 @@ namespace xtl
         int valb = -8;
         for (char c : input)
         {
-            if (T[std::size_t(c)] == -1)
+            if (T[static_cast<unsigned char>(c)] == -1)
             {
                 break;
             }
-            val = (val << 6) + T[std::size_t(c)];
+            val = (val << 6) + T[static_cast<unsigned char>(c)];
             valb += 6;
             if (valb >= 0)
             {
